@@ -148,6 +148,8 @@ Definition second_round_facts : bool :=
      deferred function (a recover() in a helper called from a deferred closure returns nil) *)
   Gen.C09.skyway_endblocker_recover_is_effective && Gen.C09.skyway_module_endblock_recover_is_effective &&
   Gen.C09.deploy_compass_recover_is_effective && Gen.C09.valset_jail_recover_is_effective && Gen.C09.recovered_sites_have_effective_recover &&
+  (* relay weights are validated (decimals in [0, 10^6]) before SetRelayWeights writes them *)
+  Gen.C09.relay_weights_validated_when_set &&
   Gen.C09.version_gate_compares_semver && Gen.C09.version_gate_skips_without_upgrade && Gen.C09.version_gate_adds_v_prefix.
 
 Theorem second_round_facts_hold_proof : second_round_facts = true.
